@@ -432,6 +432,15 @@ func child(a lib.Args) {
 	d := newDrv()
 	mainDrv = d
 	if a.Replay != "" {
+		var svcArgs []string
+		for _, l := range lib.ReplayLines(a.Replay) {
+			if l[0] == "svc.spao" {
+				svcArgs = append(svcArgs, l[2])
+			}
+		}
+		if svcArgs != nil {
+			runSvc(svcArgs)
+		}
 		for _, l := range lib.ReplayLines(a.Replay) {
 			switch l[0] {
 			case "srv":
@@ -451,6 +460,7 @@ func child(a lib.Args) {
 		return
 	}
 	emitConsts(lib.NewRng(a.Seed ^ 0x636f6e73))
+	runSvc(nil)
 	r := lib.NewRng(a.Seed)
 	nSrv, nCli := 3000, 300
 	if a.Tier == "thorough" {
